@@ -592,3 +592,6 @@ def run(ctx):
     rule_complete(ctx)
     rule_handover(ctx)
     rule_edges_stay(ctx)
+    import c14 as _c14
+
+    ctx.include("C12.7", "the conversion to SSA does not take statements out of the blocks it was given (a block that keeps two successors must keep its branch; shared with C14.2)", _c14.rule_pipeline, only=["no-step-removes-statements", "into_ssa/"])
